@@ -16,6 +16,7 @@
 #include "json.h"
 #include <errno.h>
 #include <limits.h>
+#include <locale.h>
 #include <stdlib.h>
 #include <string.h>
 
@@ -635,6 +636,13 @@ static void explore_text_inner(void)
 		mc_violation("leak", "%ld blocks still allocated after freeing every parser and value", vf_live());
 		mc_restart_worker(); /* accounting is now off for every later case */
 	}
+	if (vf_locale_live() != 0 || uselocale((locale_t)0) != LC_GLOBAL_LOCALE)
+	{
+		cur_path[0] = 0;
+		mc_violation("locale-object-leak", "%ld locale objects not released after freeing every parser; the thread's locale is %s", vf_locale_live(),
+		             uselocale((locale_t)0) == LC_GLOBAL_LOCALE ? "restored" : "still replaced");
+		mc_restart_worker();
+	}
 	mc_outcome(oh);
 	if (TL > 2 && ONE[TL].status != ST_ERROR)
 		mc_nontrivial(mc_hash(T, TL, (uint64_t)cur_flags));
@@ -818,6 +826,20 @@ static void fam_docs(void)
 		T[TL++] = 0;
 		explore_text();
 		TL--;
+	}
+	/* parsers created with a small nesting limit: containers that open on, just below and beyond the last level */
+	{
+		cur_fam = "F3-depth-limited";
+		static const char *dd[] = {"[[ ]]", "[[1]]", "[ ]", "{ }", "[1]", "{\"a\":[ 1]}", "[{ }]", "[[[]]]", "[[],[ ]]", "{\"a\":{\"b\": {}}}", "[ [\n] ]", "[1,[2,[3]]]", "[]", "[[]]"};
+		for (unsigned i = 0; i < sizeof dd / sizeof dd[0]; i++)
+			for (int D = 1; D <= 3; D++)
+			{
+				TL = strlen(dd[i]);
+				memcpy(T, dd[i], TL);
+				cur_depth = D;
+				all_flags_both_ends();
+			}
+		cur_depth = 32;
 	}
 	cur_fam = "F3-T13";
 	V *leaves[8];
@@ -1006,6 +1028,28 @@ static void fam_depth(void)
 						c15_oneshot_and_graph(D, D <= (mc_tier ? 8 : 4) && k <= D + 1);
 					}
 		}
+	/* large limits: the limit asked for is the limit applied, whatever its size */
+	cur_fam = "depth-large";
+	{
+		static const int bigD[] = {100, 1000, 4095, 4096, 4097, 5000, 8192, 10000};
+		for (unsigned di = 0; di < sizeof bigD / sizeof bigD[0]; di++)
+			for (int dk = -2; dk <= 1; dk++)
+				for (int pat = 0; pat < 3; pat++)
+				{
+					if (mc_deadline())
+						return;
+					int D = bigD[di], k = D + dk;
+					sb_reset(&txt);
+					for (int i = 0; i < k; i++)
+						sb_puts(&txt, (pat == 0 || (pat == 2 && (i & 1))) ? "[" : "{\"k\":");
+					sb_puts(&txt, "1");
+					for (int i = k - 1; i >= 0; i--)
+						sb_putc(&txt, (pat == 0 || (pat == 2 && (i & 1))) ? ']' : '}');
+					TL = txt.n;
+					memcpy(T, txt.p, TL);
+					c15_oneshot_and_graph(D, 0);
+				}
+	}
 	/* refused depth values */
 	cur_fam = "depth-refused";
 	static const int bad[] = {0, -1, -2147483647 - 1};
